@@ -135,9 +135,14 @@ prop('C08', title='TLV models encode to exact, minimal TLV and decode back to eq
 prop('C09', title='Name representations (URI, component list, wire) are mutually consistent', level='proof',
      bounded=[('bounded.c09', 'run', SH)],
      level_text='Unbounded proof for the wire side: Name.decode (components tile exactly the declared length), Name.encode / encoded_length '
-                '(exact size, header), Component.from_bytes / from_number / get_type / get_value. URI text conversions, normalisation of input '
-                'forms, is_prefix and canonical ordering are a bounded stand-in (exhaustive over a small alphabet + random names).',
-     level_note='SMT string theory is too weak for the URI loops (DESIGN.md 6/C09); those functions are only covered by the bounded part.',
+                '(exact size, header), Name.normalize, Component.from_bytes / from_number / get_type / get_value / to_number and the typed-number '
+                'constructors; and for the URI PRINTERS over a structured-text abstraction: Component.to_canonical_uri / to_str (decimal type '
+                'prefix unless generic, sha256digest= / params-sha256= hex forms, seg= off= v= t= seq= decimal forms, value bytes in order, each '
+                'of the 256 byte values rendered as the URI scheme says - tabulated from the real nested function) and Name.to_str / '
+                'to_canonical_uri (leading slash, every component in order, trailing slash exactly for an empty last component).',
+     level_note='The URI PARSERS (Component.from_str, Name.from_str, escape_str) - hence every round trip through text, the normalisation of '
+                'text input forms, is_prefix and canonical ordering - are a bounded stand-in (exhaustive over a small alphabet + random names): '
+                'their character loops need an inductive position argument that this engine does not carry (DESIGN.md 6/C09).',
      technique=T_MIXED)
 prop('C10', title='Link-layer envelopes are transparent: Nack, PIT token and wrapped packets', level='proof',
      bounded=[('bounded.c10', 'run', SH)],
